@@ -607,3 +607,7 @@ def run(ctx):
     ctx.add_sample({"script": execs[len(scripts) + 1][:16]})
     ctx.add_sample({"script": execs[-1][:4]})
     pipeline.drive_and_validate(ctx, exe, execs, SPEC_DIR, "HashMapTrace", "Trace.cfg", label="ht")
+    # the process-locale family (lib/vlib/locale8.py): a slice of the same executions in a process that called setlocale()
+    # (the case-insensitive hash and equality must keep agreeing with each other whatever <ctype.h> says about a byte)
+    from vlib import locale8
+    locale8.rerun(ctx, exe, execs[::5], SPEC_DIR, "HashMapTrace", "Trace.cfg", "ht")
